@@ -147,6 +147,24 @@ fn main() {
                 }
             }
         }
+        // content-encoded objects of three and more source blocks of UNEQUAL size (3+2+2, 4+3+3, 7+6+6 symbols of 16
+        // bytes): the decoder is fed block by block through a ring sized on the first block, later blocks wrap around
+        // it. Incompressible and compressible contents, every scheme of the catalogue's cenc part, always included.
+        for (k, (len, b)) in [(80usize, 3u32), (88, 3), (100, 3), (125, 4), (135, 4), (150, 4), (270, 7), (284, 7)].iter().enumerate() {
+            for cenc in [CencSpec::Gzip, CencSpec::Zlib, CencSpec::Deflate] {
+                for fec in [Fec::NoCode, Fec::Rs28] {
+                    let c = SmallCfg {
+                        fec, e: 16, b: *b, parity: if fec == Fec::NoCode { 0 } else { 1 }, len: *len, interleave: 1 + (k % 2) as u8,
+                        inband_fti: k % 2 == 0, transfers: 1, cenc, inband_cenc: k % 3 != 0, md5: (k + fec.id() as usize) % 2 == 0, fdt_same_oti: false, nobj: 1,
+                    };
+                    if let Ok(Ok(em)) = util::guarded(|| build_small(&c, ctx.seed)) {
+                        if em.tois.iter().all(|t| t.is_some()) && em.finished && em.stream.len() <= 48 {
+                            shapes.push((format!("{}|unequal-blocks", c.name()), em));
+                        }
+                    }
+                }
+            }
+        }
         let shapes = Arc::new(shapes);
         let n_scripts = 9;
         let n_orders = 4;
